@@ -1644,10 +1644,34 @@ def direct_C13(ctx, impl_):
     for e, r, mode, sats, sigs, cells in msm_cases(ctx, ctx.n(49 * 3, 49 * 9)):
         lines.append("msg %d %s" % (rng.choice([1, 2]), hx(r["payload"])))
     lines += ["msg 1 " + hx(bytes(rng.getrandbits(8) for _ in range(rng.randint(0, 5)))) for _ in range(ctx.n(20, 100))]
+    # readers and the static parser too ("through however many reader or message objects"): small mixed
+    # streams with damaged frames in the three error modes (errors go to a per-call handler, so the harness
+    # itself shares nothing between threads), frames through RTCMReader.parse with validation on and off
+    for _ in range(ctx.n(25, 120)):
+        data, _frames, _desc = mixed_stream(ctx, nitems=rng.randint(1, 4))
+        if rng.random() < 0.5 and len(data) > 8:
+            b = bytearray(data)
+            b[rng.randrange(len(b))] ^= 1 << rng.randrange(8)
+            data = bytes(b)
+        q = rng.choice([0, 1, 2])
+        lines.append(reader_line(rng.choice([0, 1]), q, rng.choice([1, 2]), rng.random() < 0.8, q == 2, "-", data))
+    for f in good_frames(ctx, ctx.n(20, 100)):
+        if rng.random() < 0.3:
+            b = bytearray(f)
+            b[rng.randrange(len(b))] ^= 1 << rng.randrange(8)
+            f = bytes(b)
+        lines.append("parse %d %d %s" % (rng.choice([0, 1]), rng.choice([1, 2]), hx(f)))
     lines = sorted(set(lines))
     ref = {l: impl_.eval_guarded(l) for l in lines}
     nthreads, reps = ctx.n(6, 12), ctx.n(2, 6)
     seen, errs = threads_run(lines, nthreads, reps, ctx.seed)
+    # the reader ops again on their own, many more times: the window in which a reader's intermediate
+    # state could be seen by another reader is a few bytecodes wide
+    rlines = [l for l in lines if l.startswith("reader ") or l.startswith("parse ")]
+    seen2, errs2 = threads_run(rlines, nthreads, reps * 12, ctx.seed + 1)
+    for l in rlines:
+        seen[l] |= seen2[l]
+    errs += errs2
     failures = []
     for l in lines:
         bad = [o for o in seen[l] if o != ref[l]]
